@@ -562,9 +562,18 @@ func init() {
 		Outside: []string{"longer payloads, formats and histories", "float digits concrete", "paths that end in a panic (C11)"},
 	})
 	register(&CheckSpec{
-		ID:      "C03",
-		Props:   []string{"C03"},
-		Obligs:  func(tier string) []Oblig { return wfObligs(tier, false) },
+		ID:    "C03",
+		Props: []string{"C03"},
+		Obligs: func(tier string) []Oblig {
+			var obs []Oblig
+			for _, o := range wfObligs(tier, false) {
+				if tier != "thorough" && o.Harness == "H_fmtbytes" && o.Args[0] >= 3 && o.Args[1] == 0 {
+					continue // a line feed in the format is safe text; the 3-byte format space is C01's
+				}
+				obs = append(obs, o)
+			}
+			return obs
+		},
 		Bounds:  wfBounds,
 		Goals:   []string{"lf-first", "lf-last", "symbolic-leaf"},
 		Assume:  []string{"raw-mode writes are well-formed, line-safe fragments (documented use)"},
@@ -764,6 +773,12 @@ func c14Obligs(tier string) []Oblig {
 		for p := 0; p < 3; p++ {
 			for pre := 1; pre <= 3; pre++ {
 				obs = append(obs, Oblig{Harness: "H_c14", Args: []int{w, p, 0, pre}})
+				// the same with concrete flags and verbs (memoisation keyed on the directive)
+				for _, mask := range []int{0, 1, 4, 18} {
+					for _, verb := range []int{'f', 'x', 'v', 'q'} {
+						obs = append(obs, Oblig{Harness: "H_c14", Args: []int{w, p, 0, pre, mask + 1, verb}})
+					}
+				}
 			}
 		}
 	}
